@@ -168,6 +168,17 @@ func (h *Handler) Handle(ctx context.Context, record slog.Record) error {
 
 	if h.addCaller && record.PC != 0 {
 		frame, _ := runtime.CallersFrames([]uintptr{record.PC}).Next()
+		if h.callerSkip != 0 {
+			// record.PC identifies the call site alone. The frame
+			// callerSkip callers above it has to be looked up on the
+			// stack, at the depth the stack trace below starts from.
+			frame = runtime.Frame{}
+			stack := stacktrace.Capture(3+h.callerSkip, stacktrace.First)
+			if stack.Count() > 0 {
+				frame, _ = stack.Next()
+			}
+			stack.Free()
+		}
 		if frame.PC != 0 {
 			ce.Caller = zapcore.EntryCaller{
 				Defined:  true,
